@@ -8,7 +8,7 @@ HOOKS = {
 ENGINES = [
     {"name": "ENV", "path": "/verif/amc/kit + /verif/amc/explore", "serves_properties": ["C08", "C11"],
      "kind_free_text": "deviation-bounded enumeration of environment answers on one thread: fault kind/position per handler call, veto positions, map iteration orders; every placement up to the bound is executed on the real code inside a synctest bubble"},
-    {"name": "SCHED", "path": "/verif/amc/shim/vsched + /verif/amc/explore + /verif/amc/instr", "serves_properties": ["C01", "C04", "C14"],
+    {"name": "SCHED", "path": "/verif/amc/shim/vsched + /verif/amc/explore + /verif/amc/instr", "serves_properties": ["C01", "C04", "C13", "C14"],
      "kind_free_text": "stateless model checking: source instrumenter (go build -overlay) turns every sync/atomic/go/channel operation into a schedule point of a cooperative scheduler running inside a testing/synctest bubble; DFS over choice lists with iterative deviation bounding, causal zero-cost continuation, conflict-based point reduction, replayable schedules"},
     {"name": "SEQ", "path": "/verif/amc/kit", "serves_properties": ["C01", "C02", "C03", "C05", "C06", "C07", "C14", "C19"],
      "kind_free_text": "sequential explicit-state search: BFS over the states of real machines (successor = fresh instance + replayed shortest path + one operation), enumerated schema spaces, reference predicates"},
@@ -92,5 +92,12 @@ LEVELS = {
         "text": "Every exported schema found by scanning the current tree is checked statically and then explored breadth-first over single-state Add/Remove from the empty machine, component by component, with Require closure and mutual-Remove exclusivity evaluated in every reachable set; complete below the stated cap, which the evidence reports per schema.",
         "design_ref": "DESIGN.md section 5 C19",
         "note": "Trusted: Machine.Import/Export as the state loader (cross-checked against path replay). Schemas in package main examples are not covered.",
+    },
+    "C13": {
+        "engine": "SCHED",
+        "technique": "stateless model checking of disposal landing at every schedule point of a small workload (9 dispose variants), controlled scheduler in a synctest bubble, deviation bounding",
+        "text": "Dispose / double Dispose / concurrent Dispose / parent-ctx cancel / Dispose from a handler / helpers.Dispose with the Disposed mixin / DisposeForce run against a mutating thread, an Eval thread and outstanding subscriptions under every schedule with <= 1 deviation (quick) or <= 2 deviations restricted to switches to the harness threads and Dispose's goroutines (thorough); oracle once WhenDisposed closes: all waiters released, state ctx cancelled, dispose handlers exactly once, handler goroutine gone, later calls return neutral values, no deadlock, no escaped panic.",
+        "design_ref": "DESIGN.md section 5 C13, section 4.2",
+        "note": "Trusted: instrumenter/shims incl. the deterministic-select expansion (a blocking select with several ready cases takes the first in source order); synctest fake clock. The thorough tier's thread focus is a declared under-approximation.",
     },
 }
